@@ -800,6 +800,9 @@ func (s *Subscription) validateAccess(a *rescache.Access) {
 // unsubscribeDirect removes any direct subscription of the resource and sends
 // an unsubscribe event if any direct subscriptions existed.
 func (s *Subscription) unsubscribeDirect(reason *reserr.Error) {
+	if verifhook.Enabled && s.direct > 0 && len(s.readyCallbacks)+len(s.accessCallbacks) > 0 {
+		verifhook.Site("unsubdirect.pending", s.c.CID(), s.rid)
+	}
 	if s.direct > 0 {
 		s.c.Unsubscribe(s, true, false, s.direct, true)
 		s.c.Send(rpc.NewEvent(s.rid, "unsubscribe", rpc.UnsubscribeEvent{Reason: reason}))
